@@ -180,6 +180,65 @@ func runClean(c *Ctx, x any, label string, every bool) {
 	}
 }
 
+// runCleanList: the same oracle for a top-level item list.
+func runCleanList(c *Ctx, l vocab.ItemCollection) {
+	// plant through a holder so that the reference walk starts at the list members
+	on, off := 0, 0
+	onWalk := map[uintptr]bool{}
+	for i := range l {
+		modelWalkItem(reflect.ValueOf(&l).Elem().Index(i), func(p reflect.Value) { onWalk[p.Pointer()] = true })
+	}
+	n := 0
+	allStructs(reflect.ValueOf(&l).Elem(), func(s reflect.Value) {
+		n++
+		mark := offWalkMark
+		if s.CanAddr() && onWalk[s.Addr().Pointer()] {
+			mark = onWalkMark
+			on++
+		} else {
+			off++
+		}
+		s.FieldByName("Bto").Set(reflect.ValueOf(vocab.ItemCollection{vocab.IRI(fmt.Sprintf("%s%d/bto", mark, n))}))
+		s.FieldByName("BCC").Set(reflect.ValueOf(vocab.ItemCollection{vocab.IRI(fmt.Sprintf("%s%d/bcc", mark, n))}))
+	}, 0)
+	want := vmodel.DeepCopy(l).(vocab.ItemCollection)
+	for i := range want {
+		modelWalkItem(reflect.ValueOf(&want).Elem().Index(i), func(p reflect.Value) {
+			p.Elem().FieldByName("Bto").Set(reflect.Zero(vmodel.IcT))
+			p.Elem().FieldByName("BCC").Set(reflect.Zero(vmodel.IcT))
+		})
+	}
+	wantN := vmodel.Canon(want, vmodel.Exact)
+	c.Distinct("cleanlist|"+vmodel.Fingerprint(wantN), true)
+	c.Count("plants-on-walk", int64(on))
+	c.Count("plants-off-walk", int64(off))
+	c.Pending("ItemCollection.Clean")
+	if c.Guard("ItemCollection.Clean", func() { l.Clean() }) {
+		return
+	}
+	c.Eval(1)
+	c.Count("cleans", 1)
+	c.Count("list-cleans", 1)
+	for _, d := range vmodel.Diff(wantN, vmodel.Canon(l, vmodel.Exact)) {
+		effect := "other-property-changed"
+		if strings.HasSuffix(d.Leaf, ".bto") || strings.HasSuffix(d.Leaf, ".bcc") {
+			effect = "private-recipients-removed-off-walk"
+			if d.Kind == "extra" {
+				effect = "private-recipients-left-on-walk"
+			}
+		}
+		c.Fail("clean|ItemCollection|"+effect, fmt.Sprintf("after Clean() of a top-level item list: %s %s", d.Path, d.Kind), map[string]any{"path": d.Path, "want": d.Want, "got": d.Got})
+	}
+	var jb []byte
+	var err error
+	if !c.Guard("MarshalJSON", func() { jb, err = vocab.MarshalJSON(l) }) && err == nil {
+		c.Count("serialisations", 1)
+		if bytes.Contains(jb, []byte("/on-walk/")) {
+			c.Fail("clean|ItemCollection|json-leak", "the JSON written after Clean() of a top-level item list still holds a private recipient of a member embedded by pointer", map[string]any{})
+		}
+	}
+}
+
 // walkVia names the first property of the path (which hop the difference lies under).
 func walkVia(path string) string {
 	first := path
@@ -296,6 +355,24 @@ func init() {
 					label := fmt.Sprintf("%s.%s %s depth %d via %s", cc.Kind.Name, cc.First, cc.Form, cc.Depth, cc.Inner)
 					c.Count("first-hop:"+cc.First, 1)
 					runClean(c, x, label, true)
+				}},
+				{Name: "top-level-list", N: tierN(tier, 2000, 20000), Run: func(c *Ctx, idx int) {
+					// ItemCollection offers Clean() too: every member embedded by pointer is cleaned, value-form members cannot be
+					g := caseGen(c, false, idx)
+					g.PSet = 0.3
+					g.Exact = true
+					var l vocab.ItemCollection
+					for m := 1 + g.R.Intn(3); m > 0; m-- {
+						k := cleanKinds[g.R.Intn(len(cleanKinds))]
+						p := g.Struct(k, 1, true)
+						if g.R.Intn(5) == 0 {
+							l = append(l, reflect.ValueOf(p).Elem().Interface().(vocab.Item))
+						} else {
+							l = append(l, p.(vocab.Item))
+						}
+					}
+					l = append(l, g.IRI())
+					runCleanList(c, l)
 				}},
 				{Name: "random", N: tierN(tier, 6000, 100000), Run: func(c *Ctx, idx int) {
 					g := caseGen(c, false, idx)
